@@ -9,7 +9,7 @@ import tsdate
 from vpkit import common, zoo
 
 ID = "C27"
-N = {"quick": 400, "thorough": 20000}
+N = {"quick": 240, "thorough": 20000}
 BUDGET = {"quick": 240.0, "thorough": 1200.0}
 RULE = ("case = (DAG of a zoo tree sequence, incl. multi-tree, polytomies, internal/historical samples, "
         "6 unconstrained time vectors: noisy, shuffled, constant, reversed, already feasible, huge scale; "
@@ -37,8 +37,44 @@ def feasible(ts, t, eps):
     return bool(np.all(tp > tc) and np.all(tp >= tc + eps))
 
 
+def date_level(ctx, i, rec, rng):
+    """the same statement at the API: with the least-squares phase off, date() must return
+    exactly max(unconstrained mean, child + min_branch_length)"""
+    kind = ["historical", "internal_sample", "sim", "historical"][(i // 4) % 4]
+    ts, r = zoo.any_input(rng, kinds=[kind])
+    mbl = float(rng.choice([1e-8, 1e-3, 1.0, 100.0]))
+    scale = float(rng.choice([0.1, 1.0, 10.0]))
+    kw = dict(mutation_rate=common.default_mu(ts, r) / scale, min_branch_length=mbl, return_fit=True,
+              rescaling_intervals=int(rng.choice([0, 5])), max_iterations=int(rng.choice([1, 5, 25])))
+    explicit = common.contemporaneous(ts) is False or rng.random() < 0.5
+    if explicit:
+        kw["constr_iterations"] = 0
+    res, exc = common.call(tsdate.variational_gamma, ts, **kw)
+    rec.sig = zoo.ts_sig(ts, "date-level", mbl, explicit)
+    if exc is not None:
+        rec.count("date_level_no_return")
+        return
+    out, fit = res
+    mean = fit.node_posteriors()["mean"]
+    want = minimal(ts, mean, mbl)
+    rec.count("date_level_runs")
+    rec.count("date_level_runs:explicit_zero" if explicit else "date_level_runs:default")
+    if not common.contemporaneous(ts):
+        rec.count("date_level_runs_with_historical_samples")
+    if np.any(want != mean):
+        rec.count("date_level_runs_where_constraint_binds")
+        rec.nontrivial = True
+    if not np.array_equal(out.nodes_time, want):
+        j = int(np.flatnonzero(out.nodes_time != want)[0])
+        rec.violation("date-output-not-minimal",
+                      f"constr_iterations={'0' if explicit else 'default(0)'}: node {j} output {out.nodes_time[j]!r}, unconstrained mean {mean[j]!r}, "
+                      f"minimal constrained value {want[j]!r}", node=j)
+
+
 def case(ctx, i, rec):
     rng = ctx.rng(i)
+    if i % 4 == 3:
+        return date_level(ctx, i, rec, rng)
     ts, r = zoo.any_input(rng, allow_inferred=(i % 5 == 0))
     fixed = common.is_sample(ts)
     true_t = ts.nodes_time
@@ -105,6 +141,6 @@ def case(ctx, i, rec):
 
 
 def reach(ctx, agg):
-    need = {"minimality_judged": 300, "idempotence_judged": 1000, "strictly_feasible_inputs": 100,
-            "cases_where_nodes_moved": 500, "calls:iters=100": 50}
+    need = {"minimality_judged": 250, "date_level_runs": 50, "date_level_runs_with_historical_samples": 20, "date_level_runs_where_constraint_binds": 10, "idempotence_judged": 800, "strictly_feasible_inputs": 100,
+            "cases_where_nodes_moved": 400, "calls:iters=100": 50}
     return [f"{k} = {agg.cnt.get(k, 0)} < {v}" for k, v in need.items() if agg.cnt.get(k, 0) < v]
